@@ -1,10 +1,10 @@
 /* C30 harness (T-sched): the real lock-free LIFO (parsec/class/lifo.h, 128-bit CAS
  * branch, and parsec_lifo.c) driven by the schedule of the case.  parsec_lifo.c is
  * included after interpose.h, so the code of push / chain / pop / try_pop is compiled
- * here from the repository's current text with a yield before every
- * parsec_atomic_cas_ptr / parsec_atomic_cas_int128.  One more scheduling point is added
- * below: parsec_atomic_rmb, which in pop / try_pop separates the plain read of the
- * counter from the plain read of the item pointer.
+ * here from the repository's current text with a yield before and after every
+ * parsec_atomic_cas_ptr / parsec_atomic_cas_int128 and one at parsec_atomic_rmb, which in
+ * pop / try_pop separates the plain read of the counter from the plain read of the item
+ * pointer.
  *
  * Every model thread is a coroutine running a list of operations on the one LIFO and
  * holds a private bag of items: pops add to its front, push j takes the j-th held item
@@ -16,7 +16,14 @@
  * out : hist: i<t>:<op> r<t>:<res> ... | stack: ids (drained with nolock_pop) | cnt=C |
  *       own: .. ; .. | steps: ..                                                        */
 #include "interpose.h"
-#define parsec_atomic_rmb() (cos_yield(), parsec_atomic_rmb())
+/* finer than interpose.h: a CAS is a step of its own (yield before and after), so the plain
+ * accesses that precede and follow it belong to different steps */
+static inline int cos_after(int r) { cos_yield(); return r; }
+#undef parsec_atomic_cas_ptr
+#undef parsec_atomic_cas_int128
+#define parsec_atomic_cas_ptr(l,o,n)    (cos_yield(), cos_after(parsec_atomic_cas_ptr(l,o,n)))
+#define parsec_atomic_cas_int128(l,o,n) (cos_yield(), cos_after(parsec_atomic_cas_int128(l,o,n)))
+#define parsec_atomic_rmb()             (cos_yield(), parsec_atomic_rmb())
 #include "cosched.h"
 #include "parsec/class/parsec_lifo.c"
 #include "hcommon.h"
